@@ -91,6 +91,13 @@ def run(ctx):
                       (mname + '/bsr2', A)))
         extra.append((('rootnode-bsr2|blockjacobi', lambda A_: pyamg.rootnode_solver(sp.bsr_array(sp.csr_array(A_), blocksize=(2, 2)), max_coarse=4), 'sym'),
                       (mname + '/bsr2', A)))
+    # over-relaxed SOR (1 < omega < 2) on levels stored in 2x2 blocks: A-nonexpansive as any SOR with omega in (0, 2), whatever
+    # the storage of the level matrix
+    for k, (mname, A) in enumerate([m for m in mats if m[0] == 'poisson2d-6x5'] + (cm * 1)[:1]):
+        extra.append((('sa-bsr2|sor', lambda A_: pyamg.smoothed_aggregation_solver(sp.bsr_array(sp.csr_array(A_), blocksize=(2, 2)), max_coarse=4), 'sym'),
+                      (mname + '/bsr2', A)))
+        extra.append((('rootnode-bsr2|sor', lambda A_: pyamg.rootnode_solver(sp.bsr_array(sp.csr_array(A_), blocksize=(2, 2)), max_coarse=4), 'sym'),
+                      (mname + '/bsr2', A)))
     from pyamg.gallery import poisson as _poisson
 
     def two_field(T, c, g):
@@ -142,6 +149,9 @@ def run(ctx):
             smoothers = [[('richardson', {'omega': 1.0}), ('chebyshev', {'degree': 3})], [('chebyshev', {'degree': 2, 'iterations': 2}), ('jacobi', {'omega': 4.0 / 3.0})]][ci % 2] + smoothers
         if bname.endswith('|jacobi'):
             smoothers = [('jacobi', {'omega': 4.0 / 3.0}), ('jacobi', {'omega': 4.0 / 3.0})] + smoothers
+        if bname.endswith('|sor'):
+            smoothers = [[('sor', {'omega': 1.5, 'sweep': 'forward'}), ('sor', {'omega': 1.9, 'sweep': 'backward'})],
+                         [('sor', {'omega': 1.8, 'sweep': 'backward', 'iterations': 2}), ('gauss_seidel', {'sweep': 'forward', 'omega': 1.7})]][ci % 2] + smoothers
         if bname.endswith('|blockgs'):
             smoothers = [('block_gauss_seidel', {'sweep': 'symmetric', 'blocksize': 2}), ('block_gauss_seidel', {'sweep': 'forward', 'blocksize': 2})] + smoothers
         if bname.endswith('|blockjacobi'):
